@@ -104,6 +104,24 @@ def g_support(prop, bound, maxkeys):
                 exhaustive=True, tasks=[dict(module='contracts.support', want=[prop], args=a) for a in T])
 
 
+def g_modifiers(prop, bound, q):
+    T = []
+    shs = harness.shapes(*bound)
+    for sh in shs:
+        for npos, nkwo in ((0, 1), (1, 0), (1, 1), (0, 2), (2, 0)) + (() if q else ((2, 1), (1, 2))):
+            T.append(dict(mode='prepare', shape=sh, npos=npos, nkwo=nkwo))
+        for npos, nkwo in ((0, 1), (1, 0), (1, 1)) + (() if q else ((0, 2), (2, 0))):
+            for na in range(sh[0] + sh[1] + 2):
+                for nk in (0, 1) if q else (0, 1, 2):
+                    T.append(dict(mode='call', shape=sh, npos=npos, nkwo=nkwo, nargs=na, nkeys=nk))
+        for m in ('_kwoargs_start', '_posoargs_end', '_autokwoargs'):
+            for n in (0, 1) if q else (0, 1, 2):
+                T.append(dict(mode=m, shape=sh, npos=n))
+    return dict(name='modifiers', bound=bound_text(bound) + '; <=2 names selected as positional-only and <=2 as keyword-only (3 in total at most; the NAMES are symbolic: any parameter, each other, or none); '
+                'calls: 0..positionals+1 positional arguments, <=%d keywords with symbolic names' % (1 if q else 2),
+                exhaustive=True, tasks=[dict(module='contracts.modifiers', want=[prop], args=a, cross=False) for a in T])
+
+
 def plan(prop, tier, seed=0):
     """returns list of job groups: dict(name, tasks, bound, exhaustive)"""
     q = tier == 'quick'
@@ -135,6 +153,13 @@ def plan(prop, tier, seed=0):
               g_forwards(prop, BS, 1, 60 if q else 1200, seed)]
         if prop in ('C08', 'C10', 'C11'):
             G += [g_partial(prop, B1, 1), g_partial(prop, B1 if q else (1, 2, 1, 3), 0, 'plain')]
+    if prop == 'C12':
+        G += [g_modifiers(prop, (1, 2, 1, 3) if q else (1, 3, 1, 4), q)]
+    if prop == 'C08':
+        g = g_modifiers(prop, (1, 2, 1, 3), True)
+        g['tasks'] = [t for t in g['tasks'] if t['args']['mode'] == 'prepare']
+        g['name'] = 'modifiers (provenance swap)'
+        G += [g]
     if prop == 'C20':
         G += [g_support(prop, (1, 2, 1, 3) if q else (2, 2, 2, 4), 2 if q else 3),
               dict(name='support string helpers (tier R)', exhaustive=True,
